@@ -20,6 +20,9 @@ def _is_immutable_const(node):
         return True
     if isinstance(node, ast.JoinedStr):
         return True
+    if isinstance(node, ast.Call) and ast.unparse(node.func) == 're.compile' and all(_is_immutable_const(a) for a in node.args) \
+            and not node.keywords:
+        return True         # a compiled pattern has no observable state
     return False
 
 
@@ -157,7 +160,13 @@ def frame_obligations(rep, modules=MODULES):
 def _mutations_of_name(mod, nm):
     probs = []
     for q, fn in mod.functions.items():
-        for n in ast.walk(fn):
+        if nm in _locals_of(fn):
+            continue
+        for n in [x for st_ in fn.body for x in ast.walk(st_)]:        # (decorators and defaults are evaluated at definition time)
+            # a module-level object that is not a constant (a lock, a cache, a counter, a registry ...) used inside a function is
+            # state shared by all calls and all engine instances, whatever is done with it
+            if isinstance(n, ast.Name) and n.id == nm and isinstance(n.ctx, ast.Load):
+                probs.append('%s line %d: uses the module-level object %s' % (q, n.lineno, nm))
             if isinstance(n, (ast.Attribute, ast.Subscript)) and isinstance(n.ctx, (ast.Store, ast.Del)) and _base_name(n) == nm:
                 probs.append('%s line %d' % (q, n.lineno))
             if isinstance(n, ast.Call) and isinstance(n.func, ast.Attribute) and n.func.attr in MUTATORS and _base_name(n.func.value) == nm:
@@ -223,6 +232,36 @@ NONDET_CALLS = {'set', 'frozenset', 'hash', 'id', 'vars', 'dir', 'globals', 'loc
 NONDET_MODULES = {'random', 'time', 'datetime', 'uuid', 'secrets', 'os', 'socket', 'threading', 'tempfile'}
 
 
+def io_obligations(rep):
+    """C10/C18/C19: what is lexed is the caller's bytes decoded as utf8, what is written replaces the output file"""
+    if getattr(rep, '_io_done', False):
+        return
+    rep._io_done = True
+    # decoding and file modes do not depend on the process environment (locale) or on what is already there: every stream is
+    # opened with an explicit utf8 encoding (no BOM stripping, no newline translation), output files are truncated
+    mod_c = core.module('compiler')
+    probs = []
+    for q, fn in mod_c.functions.items():
+        for n in core.walk_own(fn):
+            if not isinstance(n, ast.Call):
+                continue
+            f = ast.unparse(n.func)
+            kws = {k.arg: k.value for k in n.keywords}
+            if f in ('FileStream', 'StdinStream', 'antlr4.FileStream', 'antlr4.StdinStream'):
+                enc = kws.get('encoding') or (n.args[1] if f.endswith('FileStream') and len(n.args) > 1 else None)
+                if not (isinstance(enc, ast.Constant) and enc.value in ('utf8', 'utf-8')):
+                    probs.append('%s line %d: %s without encoding=\'utf8\'' % (q, n.lineno, f))
+            if f in ('open', 'io.open', 'codecs.open'):
+                mode = n.args[1] if len(n.args) > 1 else kws.get('mode')
+                if not (isinstance(mode, ast.Constant) and mode.value in ('w', 'wb')):
+                    probs.append('%s line %d: open() with mode %s (sources are read through FileStream/StdinStream with utf8, '
+                                 'output files are opened with \'w\')' % (q, n.lineno, ast.unparse(mode) if mode is not None else 'default'))
+            if f in ('io.TextIOWrapper', 'TextIOWrapper', 'codecs.getreader', 'locale.getpreferredencoding'):
+                probs.append('%s line %d: %s' % (q, n.lineno, f))
+    rep.add_checked('compiler.<io>.deterministic.explicit_utf8_streams_and_truncating_output', not probs, '; '.join(probs), 'ast',
+                    function='compiler.<module>', witness=probs or None)
+
+
 def determinism_obligations(rep, modules=('yp_generator', 'yp_prolog_visitor', 'compiler')):
     """C18 (self-composition by congruence): a function built only from deterministic primitives and deterministic
     callees is deterministic. Choice primitives: iteration over sets, hash, id, default object repr, random, time, environment."""
@@ -250,6 +289,7 @@ def determinism_obligations(rep, modules=('yp_generator', 'yp_prolog_visitor', '
                   [s.module for s in mod.tree.body if isinstance(s, ast.ImportFrom) and s.module]
         bad = [i for i in imports if i.split('.')[0] in NONDET_MODULES - {'os'}]
         rep.add_checked('%s.<module>.deterministic.imports' % m, not bad, ', '.join(bad), 'ast', function=m + '.<module>', witness=bad or None)
+    io_obligations(rep)
     # the caller's options object outlives the call ("after any other compilations in the same process" with the same, reused
     # options): no function of the library compile path stores into it
     for m in modules:
@@ -323,6 +363,7 @@ def strict_parsing_obligations(rep):
     """C10: typestate of the ANTLR objects in _compile_prolog_from_stream: on every path to the return the lexer and the
     parser have had their error listeners replaced by one whose syntaxError always raises, before program() runs, and the
     token after the parsed program is checked to be EOF."""
+    io_obligations(rep)
     mod = core.module('compiler')
     fn = mod.functions.get('_compile_prolog_from_stream')
     state = {}
